@@ -3,6 +3,8 @@ package props
 import (
 	"fmt"
 	"io"
+	"net/http"
+	"net/http/httptest"
 	"os"
 	"os/signal"
 	"path/filepath"
@@ -17,6 +19,7 @@ import (
 	"github.com/corazawaf/coraza/v3/collection"
 	"github.com/corazawaf/coraza/v3/debuglog"
 	"github.com/corazawaf/coraza/v3/experimental/verifapi"
+	corazahttp "github.com/corazawaf/coraza/v3/http"
 	"github.com/corazawaf/coraza/v3/types"
 	"github.com/corazawaf/coraza/v3/types/variables"
 
@@ -142,6 +145,9 @@ func (r *c20Run) Traces() map[string]int {
 	}
 	t := map[string]int{}
 	for i, c := range r.Calls {
+		if c.Op == "http" {
+			t[fmt.Sprintf("status:%d", c.N)]++
+		}
 		if c.Err {
 			k := fmt.Sprintf("err:%d:%s", i, c.Op)
 			if c.Injected {
@@ -377,6 +383,30 @@ func c20DoCall(tx types.Transaction, c c20Call, d c20Dirs) c20CallRes {
 	return cr
 }
 
+// c20DoHTTP sends one request through the HTTP middleware (which owns the transaction, runs
+// ProcessLogging and Close itself) to a handler that reads the whole request body and answers.
+// Err reports a body read error seen by the handler, N the status code the client got.
+func c20DoHTTP(waf coraza.WAF, c c20Call) c20CallRes {
+	cr := c20CallRes{Op: c.Op}
+	h := corazahttp.WrapHandler(waf, http.HandlerFunc(func(w http.ResponseWriter, r *http.Request) {
+		b, err := io.ReadAll(r.Body)
+		cr.Read = string(b)
+		c20ErrRes(&cr, err)
+		w.Header().Set("Content-Type", "text/plain")
+		w.WriteHeader(200)
+		io.WriteString(w, "a leak from the backend")
+	}))
+	req := httptest.NewRequest("POST", "http://c20.example/c20/http?id=7", io.NopCloser(strings.NewReader(c.Data)))
+	req.Header.Set("Content-Type", c.A)
+	if c.B != "" {
+		req.Header.Set("X-Deny", c.B)
+	}
+	rec := httptest.NewRecorder()
+	h.ServeHTTP(rec, req)
+	cr.N = rec.Code
+	return cr
+}
+
 func c20Intr(i *types.Interruption) *sl.Intr {
 	if i == nil {
 		return nil
@@ -482,7 +512,10 @@ func c20Exec(e *c20Env, c *c20Case) *c20Run {
 	if e.Sentinel != nil {
 		e.Sentinel("begin")
 	}
-	tx := waf.NewTransactionWithID("c20tx")
+	var tx types.Transaction
+	if s.Kind != "http" {
+		tx = waf.NewTransactionWithID("c20tx")
+	}
 	ncalls := len(s.Calls)
 	if c.Mode == "abandon" && c.Stop < ncalls {
 		ncalls = c.Stop
@@ -490,14 +523,22 @@ func c20Exec(e *c20Env, c *c20Case) *c20Run {
 	for i := 0; i < ncalls && r.Panic == nil; i++ {
 		call := s.Calls[i]
 		var cr c20CallRes
-		if pi := fw.Guard(func() { cr = c20DoCall(tx, call, d) }); pi != nil {
+		if pi := fw.Guard(func() {
+			if call.Op == "http" {
+				cr = c20DoHTTP(waf, call)
+			} else {
+				cr = c20DoCall(tx, call, d)
+			}
+		}); pi != nil {
 			r.Panic, r.PanicAt = pi, call.Op
 			cr = c20CallRes{Op: call.Op}
 		}
 		r.Calls = append(r.Calls, cr)
-		fw.Guard(func() { c20ReadErrorVars(tx, r.Vars) })
+		if tx != nil {
+			fw.Guard(func() { c20ReadErrorVars(tx, r.Vars) })
+		}
 		if cr.Err && c.OnErr != "" && c.OnErr != "continue" {
-			if c.OnErr == "log-close" {
+			if c.OnErr == "log-close" && tx != nil {
 				if pi := fw.Guard(func() { tx.ProcessLogging() }); pi != nil && r.Panic == nil {
 					r.Panic, r.PanicAt = pi, "p5"
 				}
@@ -507,6 +548,9 @@ func c20Exec(e *c20Env, c *c20Case) *c20Run {
 		}
 	}
 	fw.Guard(func() {
+		if tx == nil {
+			return
+		}
 		c20ReadErrorVars(tx, r.Vars)
 		for _, mr := range tx.MatchedRules() {
 			id := mr.Rule().ID()
@@ -522,6 +566,9 @@ func c20Exec(e *c20Env, c *c20Case) *c20Run {
 		r.Created = c20List(d.Tmp, d.Upl)
 	}
 	if pi := fw.Guard(func() {
+		if tx == nil {
+			return // the middleware closes its own transaction
+		}
 		if err := tx.Close(); err != nil {
 			r.CloseErr = err.Error()
 		}
@@ -550,7 +597,7 @@ func c20Exec(e *c20Env, c *c20Case) *c20Run {
 
 	// follow-up probe: same WAF (recycled object) against a fresh WAF of the same configuration
 	tx2 := waf.NewTransactionWithID("c20probe")
-	r.Reused = tx2 == tx
+	r.Reused = tx != nil && tx2 == tx
 	r.Probe = c20Probe(tx2, d)
 	c20TakeLog()
 	key := fmt.Sprintf("%x", fw.Hash(s.Conf))
